@@ -95,52 +95,66 @@ func init() {
 					_, mustRun := c.Req["landsOnInput"]
 					if k%e2eEvery == 0 || mustRun {
 						em := map[string]interface{}{}
+						// the battery runs against a host the whitelist does not know and - for strings addressed to the whitelisted host
+						// itself - once more with the request made TO that host (the proxy serving its own whitelisted name)
+						hosts := []string{"app.internal.test"}
+						if key != "none" && (strings.HasPrefix(text, "https://good.example.com") || strings.HasPrefix(text, "http://good.example.com")) {
+							hosts = append(hosts, "good.example.com")
+						}
+						for _, reqHost := range hosts {
+						sfx := ""
+						if reqHost != "app.internal.test" {
+							sfx = "@own"
+						}
 						// sign-out
-						r := w.do(vpReq{Target: w.prefix() + "/sign_out?rd=" + url.QueryEscape(text), Host: "app.internal.test"})
-						em["sign_out"] = vpRedirectTokens(voc, r.Location)
+						r := w.do(vpReq{Target: w.prefix() + "/sign_out?rd=" + url.QueryEscape(text), Host: reqHost})
+						em["sign_out"+sfx] = vpRedirectTokens(voc, r.Location)
 						// start -> IdP -> callback (the redirect travels in the state)
 						j := vpNewJar()
-						s := w.do(vpReq{Target: w.prefix() + "/start?rd=" + url.QueryEscape(text), Host: "app.internal.test"})
+						s := w.do(vpReq{Target: w.prefix() + "/start?rd=" + url.QueryEscape(text), Host: reqHost})
 						j.applyAll(s)
 						if code, state, err := w.idp.authorize(s.Location, "alice"); err == nil {
 							q := url.Values{"code": {code}, "state": {state}}
-							cb := w.do(vpReq{Target: w.prefix() + "/callback?" + q.Encode(), Cookie: j.header(), Host: "app.internal.test"})
-							em["callback"] = vpRedirectTokens(voc, cb.Location)
-							em["callback_status"] = cb.Status
-							obs["landsOnInput"] = cb.Status == 302 && cb.Location == text
+							cb := w.do(vpReq{Target: w.prefix() + "/callback?" + q.Encode(), Cookie: j.header(), Host: reqHost})
+							em["callback"+sfx] = vpRedirectTokens(voc, cb.Location)
+							em["callback_status"+sfx] = cb.Status
+							if sfx == "" {
+								obs["landsOnInput"] = cb.Status == 302 && cb.Location == text
+							}
 						}
 						// form sign-in
 						form := url.Values{"username": {"hpuser"}, "password": {"hppass"}, "rd": {text}}
-						f := w.do(vpReq{Method: "POST", Target: w.prefix() + "/sign_in", Body: form.Encode(), Form: true, Host: "app.internal.test"})
-						em["sign_in"] = vpRedirectTokens(voc, f.Location)
+						f := w.do(vpReq{Method: "POST", Target: w.prefix() + "/sign_in", Body: form.Encode(), Form: true, Host: reqHost})
+						em["sign_in"+sfx] = vpRedirectTokens(voc, f.Location)
 						// header source
-						x := w.do(vpReq{Target: w.prefix() + "/sign_out", Host: "app.internal.test", Header: [][2]string{{"X-Auth-Request-Redirect", text}}})
+						x := w.do(vpReq{Target: w.prefix() + "/sign_out", Host: reqHost, Header: [][2]string{{"X-Auth-Request-Redirect", text}}})
 						if !strings.ContainsAny(text, "\n\x01\t") {
-							em["xarr"] = vpRedirectTokens(voc, x.Location)
+							em["xarr"+sfx] = vpRedirectTokens(voc, x.Location)
 						}
 						// error and sign-in pages: every link, form action and hidden rd they carry
 						pages := map[string]*vpResp{}
 						// callback that fails before the state's redirect is validated (no CSRF cookie; CSRF cookie but a bad code)
-						pages["cberr_nocsrf"] = w.do(vpReq{Target: w.prefix() + "/callback?" + url.Values{"code": {"x"}, "state": {"nonce:" + text}}.Encode(), Host: "app.internal.test"})
+						pages["cberr_nocsrf"] = w.do(vpReq{Target: w.prefix() + "/callback?" + url.Values{"code": {"x"}, "state": {"nonce:" + text}}.Encode(), Host: reqHost})
 						j2 := vpNewJar()
-						s2 := w.do(vpReq{Target: w.prefix() + "/start?rd=" + url.QueryEscape(text), Host: "app.internal.test"})
+						s2 := w.do(vpReq{Target: w.prefix() + "/start?rd=" + url.QueryEscape(text), Host: reqHost})
 						j2.applyAll(s2)
 						if _, state, err := w.idp.authorize(s2.Location, "alice"); err == nil {
-							pages["cberr_badcode"] = w.do(vpReq{Target: w.prefix() + "/callback?" + url.Values{"code": {"not-a-code"}, "state": {state}}.Encode(), Cookie: j2.header(), Host: "app.internal.test"})
-							pages["cberr_idperror"] = w.do(vpReq{Target: w.prefix() + "/callback?" + url.Values{"error": {"access_denied"}, "state": {state}}.Encode(), Cookie: j2.header(), Host: "app.internal.test"})
+							pages["cberr_badcode"] = w.do(vpReq{Target: w.prefix() + "/callback?" + url.Values{"code": {"not-a-code"}, "state": {state}}.Encode(), Cookie: j2.header(), Host: reqHost})
+							pages["cberr_idperror"] = w.do(vpReq{Target: w.prefix() + "/callback?" + url.Values{"error": {"access_denied"}, "state": {state}}.Encode(), Cookie: j2.header(), Host: reqHost})
 						}
-						pages["signin_page"] = w.do(vpReq{Target: w.prefix() + "/sign_in?rd=" + url.QueryEscape(text), Host: "app.internal.test"})
-						pages["signin_bad_pw"] = w.do(vpReq{Method: "POST", Target: w.prefix() + "/sign_in", Body: url.Values{"username": {"hpuser"}, "password": {"wrong"}, "rd": {text}}.Encode(), Form: true, Host: "app.internal.test"})
+						pages["signin_page"] = w.do(vpReq{Target: w.prefix() + "/sign_in?rd=" + url.QueryEscape(text), Host: reqHost})
+						pages["signin_bad_pw"] = w.do(vpReq{Method: "POST", Target: w.prefix() + "/sign_in", Body: url.Values{"username": {"hpuser"}, "password": {"wrong"}, "rd": {text}}.Encode(), Form: true, Host: reqHost})
 						for name, pg := range pages {
 							for k, tgt := range vpHTMLTargets(string(pg.Body)) {
 								if strings.HasPrefix(tgt, w.prefix()+"/") || tgt == "" || static[tgt] {
 									continue // the page's own fixed same-site endpoints
 								}
-								em[fmt.Sprintf("%s#%d", name, k)] = vpRedirectTokens(voc, tgt)
+								em[fmt.Sprintf("%s#%d%s", name, k, sfx)] = vpRedirectTokens(voc, tgt)
 							}
 							if pg.Location != "" && !strings.HasPrefix(pg.Location, w.idp.srv.URL) {
-								em[name+"#loc"] = vpRedirectTokens(voc, pg.Location)
+								em[name+"#loc"+sfx] = vpRedirectTokens(voc, pg.Location)
 							}
+						}
 						}
 						obs["emitted"] = em
 						obs["input"] = vpRedirectTokens(voc, text)
